@@ -20,7 +20,8 @@ SQLS = ["select 1", "select 'a\"b'", "a\\b", "line1\nline2", "tab\there", "é ü
 REPLIES = [
     '{"result":[["1","2"]]}', '{"result":[]}', '{"err":"boom"}', '  {"result":[["a b","é"]]}', '{"result":[["\\u00e9","\\ud83d\\ude42"]]}\n',
     '{ "result" : [ [ "x" ] , [ "y" ] ] }', '{"err":"brace } in \\"string\\" { ["}', '\n\n{"result":[["}{"]]}', '{"result":[["\\\\"]]}\t',
-    '{"err":"é🙂"}', '{"result":[["' + "v" * 50 + '"]]}',
+    '{"err":"é🙂"}', '{"result":[["' + "v" * 50 + '"]]}', '{"err":""}', '{"err":" "}', '{"result":[[""]]}',
+    '{"result":[["' + "é" * 140 + '","' + "🙂" * 40 + '"]]}', '{"err":"' + "a" * 253 + "é" * 30 + '"}', '{"err":"' + "b" * 254 + "🙂" * 20 + '"}',
 ]
 
 
@@ -94,6 +95,13 @@ def generate(rng, tier):
             for then in ("exit", "close"):
                 reqs = [rng.choice(SQLS[:6]) for _ in rs]
                 cases.append(mk_case(reqs, rb[:-1] + [last[:t]], [], "lockstep", then=then))
+    # (3b) long replies of multi-byte text truncated far into them (whatever quotes or measures the unfinished reply must not cut it inside a character):
+    # every alignment of 2-, 3- and 4-byte characters around byte offsets 250..260
+    for unit in ("é", "€", "🙂"):
+        for pad in range(238, 246):
+            body = enc('{"result":[["' + "a" * pad + unit * 30 + '"]]}')
+            for t in (len(body) - 1, len(body) - 7, 300):
+                cases.append(mk_case([rng.choice(SQLS[:6])], [body[:t]], [], "lockstep", then=rng.choice(["exit", "close"])))
     # (4) trailing white space then end of stream; more calls than replies with a live child (timeout expected)
     cases.append(mk_case(["a", "b"], [enc('{"result":[]}'), enc("  \n")], [], "lockstep", then="exit"))
     cases.append(mk_case(["a", "b"], [enc('{"result":[]}')], [], "lockstep"))
